@@ -390,6 +390,8 @@ class Render:
                 return "1", g
             if kind == "const0":
                 return "0", g
+            if kind == "esc":                 # a string literal with an invalid escape sequence (SyntaxWarning material)
+                return '"\\D"', g
             if kind == "doc":
                 return '"""doc"""', g
             if kind == "call":
